@@ -53,3 +53,28 @@ package mod
 //@   in ~/mod
 //@   infunc mod\.dagPut$
 //@   requires config-descriptor-of-the-pushed-bytes: d == caller.dm.config.newDesc && $view($unbox(rdr, *bytes.Reader)) == caller.cBytes
+
+// Every descriptor written into a rewritten manifest either carries no inline data or carries
+// the bytes obtained for that very descriptor in this step: for a layer the bytes read back from
+// the target (io.ReadAll of the BlobGet above), for an index child that child's raw body. Stale
+// inline data copied along with a rewritten descriptor never reaches a manifest.
+//@ ghost $readBack []byte
+//@ ghost $childBody []byte
+//@ func dagPut(ctx, rc, mc, rSrc, rTgt, dm) (err)
+//@   prop C13
+//@   on-call ReadAll: $readBack = result0
+//@   on-call RawBody: $childBody = result0
+//@ elemwrite ~/types/descriptor.Descriptor
+//@   prop C13
+//@   name descriptor-into-manifest/dagPut
+//@   in ~/mod
+//@   infunc mod\.dagPut$
+//@   requires inline-data-obtained-now: len(v.Data) == 0 || (caller.layer != nil && v.Data == $readBack) || (caller.layer == nil && v.Data == $childBody)
+//@ callsite builtin.append(list, add)
+//@   prop C13
+//@   name append-descriptor/dagPut
+//@   in ~/mod
+//@   infunc mod\.dagPut$
+//   (a shifting append `append(l[:i+1], l[i:]...)` moves existing entries: same backing array, excluded)
+//@   where appends-one-new-descriptor: len(add) == 1 && len(add[0].Data) >= 0 && add[0].MediaType == add[0].MediaType && $arr(add) != $arr(list)
+//@   requires inline-data-obtained-now: len(add[0].Data) == 0 || (caller.layer != nil && add[0].Data == $readBack) || (caller.layer == nil && add[0].Data == $childBody)
